@@ -75,6 +75,10 @@ func CheckRegisterTxProfile(profile types.Profile) error {
 			}
 		}
 	}
+	// the flag, when given, must be one of the two values the handlers know
+	if flag, ok := profile[types.CandidateKeyIsCandidate]; ok && flag != types.IsCandidateNode && flag != types.NotCandidateNode {
+		return ErrInvalidProfile
+	}
 	// check income address
 	if strIncomeAddress, ok := profile[types.CandidateKeyIncomeAddress]; ok {
 		if !common.CheckLemoAddress(strIncomeAddress) {
@@ -162,6 +166,10 @@ func (c *CandidateVoteEnv) registerCandidate(depositAmount *big.Int, register co
 		return ErrMarshalProfileLength
 	}
 
+	// a first registration cannot be an unregistration
+	if p[types.CandidateKeyIsCandidate] == types.NotCandidateNode {
+		return ErrOfNotCandidateNode
+	}
 	// 1. 判断注册的押金必须要大于等于规定的押金限制(500万LEMO)
 	if depositAmount.Cmp(params.MinCandidateDeposit) < 0 {
 		return ErrInsufficientDepositAmount
